@@ -44,3 +44,48 @@ def crashThenStart (fixed : Bool) (k fresh1 fresh2 : Nat) : Disk :=
 def discoverable (d : Disk) : Bool := d.ents.length ≤ 1
 
 end Hc.FirstStart
+
+/-
+  The configuration number across a start that is killed (config.go: load, updateConfigHash, save).
+
+    cfg.load(storage)                 version, configHash := what is stored
+    cfg.updateConfigHash(h)           version + 1 when a hash is stored and differs from the structure's hash h
+    cfg.save(storage)                 Set("uuid"), Set("version"), Set("configHash") — each Set atomic (C19)
+
+  `hashFirst = true` is the other order (hash before version) — not what the code does.
+-/
+namespace Hc.CfgCrash
+
+structure Disk where
+  version : Option Nat
+  hash : Option Nat
+deriving DecidableEq, Repr
+
+inductive W
+  | version (v : Nat)
+  | hash (h : Nat)
+deriving DecidableEq, Repr
+
+def applyW (d : Disk) : W → Disk
+  | .version v => { d with version := some v }
+  | .hash h => { d with hash := some h }
+
+def apply (d : Disk) (ws : List W) : Disk := ws.foldl applyW d
+
+/-- the version a start with structure hash `h` announces on disk `d` (load + updateConfigHash) -/
+def announced (d : Disk) (h : Nat) : Nat :=
+  let ver := d.version.getD 1
+  match d.hash with
+  | some old => if old ≠ h then ver + 1 else ver
+  | none => ver
+
+/-- the configuration writes of a start with structure hash `h` on disk `d` -/
+def startWrites (hashFirst : Bool) (d : Disk) (h : Nat) : List W :=
+  if hashFirst then [.hash h, .version (announced d h)] else [.version (announced d h), .hash h]
+
+/-- a start with structure `h` killed after `k` of its writes, then a complete start with the same structure -/
+def crashThenStart (hashFirst : Bool) (d : Disk) (h k : Nat) : Disk :=
+  let d1 := apply d ((startWrites hashFirst d h).take k)
+  apply d1 (startWrites hashFirst d1 h)
+
+end Hc.CfgCrash
